@@ -606,3 +606,78 @@ def crash_key(rc, err):
     if kind is None and fn is None:
         return "died:rc=%d" % rc
     return "san:%s:%s" % (kind or "abort", fn or "?")
+
+
+# --------------------------------------------------------------------------
+# known boundary findings of C11 (replayed on the implementation, reported under stable keys)
+# --------------------------------------------------------------------------
+KEY_PUBDATA = "C11:pubdata-max-size-6-short"
+KEY_LIMIT = "C11:noncanonical-at-size-limit"
+
+
+def pubdata_of_size(r, c, total):
+    """a PublicationData with every field within its declared limit whose canonical encoding has `total` bytes
+    (MAX_PUBLICATIONDATA_SIZE-6 .. MAX_PUBLICATIONDATA_SIZE+6 are reachable only with all three byte fields near max)"""
+    hmax, cmax, pmax = c["MAX_HEADER_SIZE_PUBLICATION_DATA"], c["MAX_CONTEXT_SIZE_PUBLICATION_DATA"], c["MAX_PAYOUT_INFO_SIZE"]
+    full = 9 + (3 + hmax) + (3 + cmax) + (3 + pmax)
+    cut = full - total            # bytes to drop from the all-max, 8-byte-identifier value
+    assert 0 <= cut
+    idlen = 8
+    take = min(cut, r.below(6))   # drop some from the identifier (down to 3 bytes), the rest from the payout info
+    idlen -= take
+    po = pmax - (cut - take)
+    ident = (1 << (8 * idlen - 2)) | r.bits(8 * idlen - 3)
+    return Rec((ident, r.bytes(hmax), r.bytes(cmax), r.bytes(po)))
+
+
+def pubdata_limit_cases(r, c):
+    """enc cases (vbktx and atv) whose PublicationData has canonical size MAX-2 .. MAX+6; returns [(id, op, args, size)]"""
+    mx = c["MAX_PUBLICATIONDATA_SIZE"]
+    out = []
+    g = Gen(r)
+    k = 0
+    for total in range(mx - 2, mx + 7):
+        for t in ("vbktx", "atv"):
+            pub = pubdata_of_size(r, c, total)
+            assert len(py_encode(c, "pubdata", pub)[0]) == total
+            tx = Rec((g.nbp(c["TX_TYPE_VBK_TX"]), g.address(), g.coin(), [g.output() for _ in range(r.below(3))], g.i64(), pub,
+                      r.bytes(r.below(73)), r.bytes(r.below(89))))
+            v = tx if t == "vbktx" else Rec((1, tx, g.vbkmerklepath(), g.vbkblock(low=True)))
+            out.append(("p%d" % k, "enc", [t, show(v)], total))
+            k += 1
+    return out
+
+
+class ShortIndexEnc(Enc):
+    """writes a MerklePath index 0 as the empty single-BE value "00" (accepted by readSingleBEValue) instead of the
+    canonical writeSingleFixedBEValue form "04 00000000": 4 bytes shorter"""
+    def fixed32(self, v, field=None):
+        if field is None and v == 0:
+            return b"\x00"
+        return Enc.fixed32(self, v, field)
+
+
+def size_limit_witness(c, entity):
+    """bytes of a VbkPopTx (or a VTB / PopData around it) whose raw transaction buffer has exactly MAX_POPDATA_SIZE bytes
+    and contains the short MerklePath index form; the canonical re-encoding needs MAX_POPDATA_SIZE + 4 bytes"""
+    addr = Rec(address_from_pubkey(b"\x01\x02\x03"))
+    blk = Rec((1, bytes(32), bytes(32), 2, 3, 4))
+    vbk = Rec((5, 2, bytes(12), bytes(9), bytes(9), bytes(16), 7, 8, 9))
+    n = 18600
+
+    def poptx(L):
+        return Rec((Rec((0xbb, c["TX_TYPE_VBK_POP_TX"])), addr, vbk, bytes(L), Rec((0, [])), blk, [blk] * n, b"", b""))
+
+    def rawlen(t):
+        return len(ShortIndexEnc(c).vbkpoptx(t)) - 4 - 2     # var-len prefix "03 xxxxxx", empty signature, empty key
+    L0 = c["BTC_TX_MAX_RAW_SIZE"] - 10000
+    L = L0 + (c["MAX_POPDATA_SIZE"] - rawlen(poptx(L0)))
+    t = poptx(L)
+    assert rawlen(t) == c["MAX_POPDATA_SIZE"] and L <= c["BTC_TX_MAX_RAW_SIZE"]
+    e = ShortIndexEnc(c)
+    if entity == "vbkpoptx":
+        return e.vbkpoptx(t)
+    vtb = Rec((1, t, Rec((0, 0, bytes(32), [])), vbk))
+    if entity == "vtb":
+        return e.vtb(vtb)
+    return e.popdata(Rec((1, [], [vtb], [])))
